@@ -20,6 +20,16 @@ class AnyErr:
 ANY_ERR = AnyErr()
 
 
+class OneOf:
+    """Reference says: any of these (each a value, an Err or ANY_ERR) is acceptable."""
+
+    def __init__(self, *alts):
+        self.alts = list(alts)
+
+    def __repr__(self):
+        return f'OneOf({self.alts})'
+
+
 class Q:
     def __init__(self, formula, expected, label, nontrivial=True, tags=(), rel=1e-12, meta=None):
         self.formula, self.expected, self.label = formula, expected, label
@@ -29,6 +39,8 @@ class Q:
 def show_expected(e):
     if e is ANY_ERR:
         return {'$anyerr': True}
+    if isinstance(e, OneOf):
+        return {'$oneof': [show_expected(x) for x in e.alts]}
     if isinstance(e, list):
         return [show_expected(x) for x in e]
     return F.show_ref(e)
@@ -38,6 +50,14 @@ def agrees(expected, o, rel=1e-12):
     """-> (ok, why)"""
     if o[0] == 'timeout':
         return True, 'timeout (inconclusive)'
+    if isinstance(expected, OneOf):
+        whys = []
+        for alt in expected.alts:
+            ok, why = agrees(alt, o, rel)
+            if ok:
+                return True, ''
+            whys.append(why)
+        return False, ' / '.join(whys)
     if expected is ANY_ERR:
         if o[0] in ('foreign', 'lib'):
             return True, ''
